@@ -9,12 +9,14 @@ PROP = {
              "GetFlow; unit 2 writes the same filters as flow YAML, loads them with the real loader and reads the executed flows from the processor events. "
              "Non-trivial: >=2 configured patterns match the URL under the permissive reading. distinct = canonical JSON of flows+orders+transactions"),
     "assumptions": [
+        "unit TestSelectionThroughHandler: request transactions arrive as SPOE messages through routing.Handler of a real HandlingDataManager (the decoding of the message arguments is under test); the headers argument has the proxy's dump format (a CRLF-terminated line per header plus the closing empty line), with the constrained header also in upper case, on two lines with one value, or on two lines with different values (then flows that constrain it are not judged)",
         "sample_percentage (random) and JSONPath expressions (separate engine) are excluded",
         "a filter without a method list may or may not accept methods outside GET/POST/PUT/DELETE/PATCH (both readings accepted)",
         "a trailing /* may cover >=0 segments for 'selected only if accepted' and must cover >=1 for 'accepted implies selected'",
         "one path-parameter name per position (the loader rejects two different names at one position)",
     ],
     "units": [
+        {"pkg": "c03", "test": "TestSelectionThroughHandler", "quick": 300, "thorough": 5000, "shards": 1},
         {"pkg": "c03", "test": "TestFilterTreeSelection", "quick": 4000, "thorough": 40000, "shards": 16},
         {"pkg": "c03", "test": "TestEngineSelectionE2E", "quick": 400, "thorough": 3000, "shards": 8},
         {"pkg": "c03", "test": "TestRegressionFixedDefects", "kind": "plain"},
